@@ -18,6 +18,20 @@ func main() {
 	switch os.Args[1] {
 	case "dev":
 		dev(os.Args[2:])
+	case "list":
+		// functions under contract (not trusted): lookup name, file, first and last line of the body
+		prog, err := vc.Load(repoRoot(), vc.DefaultPatterns)
+		if err != nil {
+			fmt.Println(err)
+			os.Exit(2)
+		}
+		for _, fi := range prog.ByKey {
+			if fi.C == nil || fi.Decl == nil || fi.Decl.Body == nil || fi.C.Trusted != "" {
+				continue
+			}
+			fs := fi.Pkg.Fset
+			fmt.Printf("LIST %s.%s %s %d %d\n", fi.Pkg.Name, fi.Key, fs.Position(fi.Decl.Pos()).Filename, fs.Position(fi.Decl.Body.Lbrace).Line, fs.Position(fi.Decl.Body.Rbrace).Line)
+		}
 	case "modset":
 		prog, err := vc.Load(repoRoot(), vc.DefaultPatterns)
 		if err != nil {
